@@ -75,12 +75,17 @@ class Fmt(object):
         except Exception as e:  # noqa
             return {"load": {"err": err_name(e)}}
         out["load"] = {"ok": self.snap(x)}
+        out["version_after_load"] = x.header.version
         try:
             t1 = x.dumps()
         except Exception as e:  # noqa
             out["dump"] = {"err": err_name(e)}
             return out
         out["dump"] = {"ok": t1}
+        try:
+            out["dump_again"] = {"ok": x.dumps()}             # the same object written twice (the first write may mutate it)
+        except Exception as e:  # noqa
+            out["dump_again"] = {"err": err_name(e)}
         try:
             out["header"] = self.header(t1)
         except Exception as e:  # noqa
@@ -187,12 +192,14 @@ def gen00(rng):
     arch = rng.choice(ARCHES00)
     g["arch"] = arch
     r = rng.random()
-    if r < 0.5:
+    if r < 0.06:
+        g["timestamp"] = rng.choice(["-5.75", "0.5", "1e9", " 12 "])       # negative / fraction >= .5 / exponent (int(float()) truncates)
+    elif r < 0.5:
         g["timestamp"] = "%d.%02d" % (rng.randint(10 ** 9, 2 * 10 ** 9), rng.randint(0, 99))
     elif r < 0.8:
         g["timestamp"] = str(rng.randint(1, 2 * 10 ** 9))
     if rng.random() < 0.5:
-        g["name"] = "%s %s" % (fam, g["version"])
+        g["name"] = "%s %s" % (fam, g["version"]) if rng.random() < 0.9 else "N" * 300
     top = rng.choice(TOPS00)
     r = rng.random()
     if r < 0.6:
@@ -200,6 +207,8 @@ def gen00(rng):
     elif r < 0.75:
         g["variant"] = ""
     secs = {"general": g}
+    if rng.random() < 0.05:
+        secs["header"] = {"type": "productmd.treeinfo"}       # a header without `version`: still read as 0.0
     r = rng.random()
     if r < 0.6:
         g["packagedir"] = rng.choice(["", "Packages", "Server", "Server/", "Fedora", "/mnt/redhat/os/Packages", "/abs/Packages", "."])
@@ -503,9 +512,22 @@ class C05(Prop):
         g = CF.Gen(rng, tier)
         cnt = {"ci": 0, "img": 0, "ti": 0, "rpms": 0}
 
+        VERS = dict((f, L.versions_for(REPO, f)) for f in ("ci", "img", "rpms", "ti"))
+        L.CI_VERSIONS, L.IMG_VERSIONS, L.RPMS_VERSIONS, L.TI_VERSIONS = VERS["ci"], VERS["img"], VERS["rpms"], VERS["ti"]
+
         def nxt(which, table):
             cnt[which] += 1
             return table[cnt[which] % len(table)]
+
+        def flags(which, names):
+            """option flags round-robin: each flag alone, all off, all on (period coprime with the version pools)"""
+            k = cnt[which] % (len(names) + 2)
+            if k == len(names):
+                return {}
+            if k == len(names) + 1:
+                return dict((n, True) for n in names)
+            return {names[k]: True}
+        RESPINS = [0, 9, 10, 9999999, 10000000, 3]
         for i in range(budget):
             k = i % 20
             if k < 7:
@@ -516,18 +538,42 @@ class C05(Prop):
                     spec = self.dashed_beside_prefix(rng, spec)
                 if L.vt(ver) < (0, 3) and spec["compose"]["respin"] < 0:
                     spec["compose"]["respin"] = -spec["compose"]["respin"]      # the id carries no sign: not derivable, outside the quantifier
-                yield {"op": "ci", "args": {"spec": spec, "version": ver, "keep_internal": rng.random() < 0.4}}
+                if L.vt(ver) < (0, 3) and cnt["ci"] % 2:
+                    # respin boundaries of the id decoder: one digit, two digits, 10^7 - 1 (last good), 10^7 (F10)
+                    r = RESPINS[(cnt["ci"] // 2) % len(RESPINS)]
+                    c = spec["compose"]
+                    c["id"] = c["id"][:c["id"].rindex(".") + 1] + str(r)
+                    c["respin"] = r
+                yield {"op": "ci", "args": {"spec": spec, "version": ver, "keep_internal": rng.random() < 0.4,
+                                            "opts": flags("ci", ["no_final", "explicit_defaults", "upper_type", "type_mismatch"])}}
             elif k < 11:
                 ver = nxt("img", L.IMG_VERSIONS)
-                yield {"op": "img", "args": {"spec": self.img_spec(rng, tier, ver), "version": ver}}
+                yield {"op": "img", "args": {"spec": self.img_spec(rng, tier, ver), "version": ver,
+                                             "opts": flags("img", ["empty_cell", "no_final", "type_mismatch", "keep_defaults"])}}
             elif k < 14:
                 ver = nxt("rpms", L.RPMS_VERSIONS)
-                yield {"op": "rpms", "args": {"doc": gen_rpms(rng), "version": ver, "upper": rng.random() < 0.3, "suffix": rng.random() < 0.3}}
+                doc = gen_rpms(rng)
+                fl = flags("rpms", ["no_final", "type_mismatch", "empty_bucket"])
+                if fl.get("empty_bucket") and L.vt(ver) > (0, 3):
+                    # an empty variant and an empty arch bucket: stored verbatim by the >= 0.4 readers (a 0.3 manifest cannot say it)
+                    doc["payload"]["rpms"]["Empty"] = {}
+                    for v in doc["payload"]["rpms"]:
+                        if v != "Empty":
+                            doc["payload"]["rpms"][v]["s390"] = {}
+                            break
+                yield {"op": "rpms", "args": {"doc": doc, "version": ver, "upper": rng.random() < 0.3, "suffix": rng.random() < 0.3, "opts": fl}}
             elif k < 18:
                 ver = nxt("ti", L.TI_VERSIONS)
                 spec, _ = TF.gen(rng, tier)
                 self.ti_restrict(rng, spec, ver)
-                yield {"op": "ti", "args": {"spec": spec, "version": ver, "child_key": rng.choice(["addons", "variants"])}}
+                fl = flags("ti", ["no_short", "explicit_defaults", "bare_checksums", "no_tree"])
+                fl["bool_spelling"] = cnt["ti"]
+                if fl.get("no_short"):
+                    spec["release"]["short"] = spec["release"]["name"]
+                if fl.get("bare_checksums"):
+                    for ty, n in (("md5", 32), ("sha1", 40), ("sha256", 64)):
+                        spec["checksums"].append(["bare/%s.img" % ty, ty, ("%x" % rng.getrandbits(4 * n)).rjust(n, "0")])
+                yield {"op": "ti", "args": {"spec": spec, "version": ver, "child_key": rng.choice(["addons", "variants"]), "opts": fl}}
             else:
                 yield {"op": "ti00", "args": {"text": L.ini_text(gen00(rng))}}
 
@@ -552,6 +598,8 @@ class C05(Prop):
         for img in spec["pool"]:
             img["unified"] = False
             img["additional_variants"] = []
+        if L.vt(ver) < (1, 0) and spec["pool"]:
+            spec["pool"][0].update({"type": "dvd", "format": "iso"})        # the pre-1.0 default: `format` absent -> "iso"
         IF.make_unique(spec["pool"])
         if L.vt(ver) <= (1, 0) and rng.random() < 0.8:
             # stay out of F11: identities must stay distinct once the subvariant is gone
@@ -612,17 +660,24 @@ class C05(Prop):
             return a["fmt"], text, doc
         if op == "ci":
             nspec = CF.norm(a["spec"])
-            doc = L.ci_down(L.ci_doc(nspec), a["version"], a.get("keep_internal", False))
+            doc = L.ci_down(L.ci_doc(nspec), a["version"], a.get("keep_internal", False), opts=a.get("opts"))
             return "composeinfo", json.dumps(doc, sort_keys=True), doc
         if op == "img":
-            doc = L.img_down(IF.doc_of_spec(a["spec"], "1.2"), a["version"])
+            o = a.get("opts") or {}
+            doc = L.img_down(IF.doc_of_spec(a["spec"], "1.2", keep_defaults=bool(o.get("keep_defaults")) and L.vt(a["version"]) >= (1, 2)),
+                             a["version"], opts=o)
             return "images", json.dumps(doc, sort_keys=True), doc
         if op == "rpms":
-            doc = L.rpms_down(a["doc"], a["version"], upper=a.get("upper", False), suffix=a.get("suffix", False))
+            doc = L.rpms_down(a["doc"], a["version"], upper=a.get("upper", False), suffix=a.get("suffix", False), opts=a.get("opts"))
             return "rpms", json.dumps(doc, sort_keys=True), doc
         if op == "ti":
-            secs = L.ti_sections(a["spec"], a["version"], a.get("child_key", "addons"))
+            o = a.get("opts") or {}
+            secs = L.ti_sections(a["spec"], a["version"], a.get("child_key", "addons"), opts=o)
             secs["general"] = TF.expected_general(a["spec"])
+            if o.get("no_tree") and L.vt(a["version"]) > (0, 3):
+                # `[tree]` is optional for the >= 0.4 readers: arch and platforms then come from [general], the timestamp is -1 and
+                # there are no variants (the shipped opensuse fixture; writing such a tree is F12)
+                del secs["tree"]
             return "treeinfo", L.ini_text(secs), None
         if op == "ti00":
             return "treeinfo", a["text"], None
@@ -718,6 +773,18 @@ class C05(Prop):
                         for r in c:
                             r["subvariant"] = ""
                         c.sort(key=IF.rec_key)
+            if (a.get("opts") or {}).get("empty_cell") and t <= (1, 1):
+                # documented re-filing: the images of a `src` cell go under EVERY other arch key of the variant, an empty one included
+                doc = self.document(case)[2]
+                for v, arches in doc["payload"]["images"].items():
+                    if arches.get("s390") == [] and "src" in arches:
+                        recs = []
+                        for r in arches["src"]:
+                            r = dict(r)
+                            r.setdefault("format", "iso"); r.setdefault("subvariant", "")
+                            r.setdefault("unified", False); r.setdefault("additional_variants", [])
+                            recs.append(r)
+                        cells.setdefault(v, {})["s390"] = sorted(recs, key=IF.rec_key)
             comp = dict(spec["compose"])
             if not comp.get("label"):
                 comp["label"], comp["final"] = None, False
@@ -733,6 +800,11 @@ class C05(Prop):
             spec = a["spec"]
             if not L.ti_src_representable(spec, a["version"]):
                 return None, False
+            if (a.get("opts") or {}).get("no_tree") and L.vt(a["version"]) > (0, 3):
+                e = TF.norm_spec(spec)
+                e["variants"] = []
+                e["tree"] = dict(e["tree"], build_timestamp=-1)
+                return TF.canon_spec(e), True
             return TF.canon_spec(TF.norm_spec(spec)), True
         return None, False
 
@@ -790,6 +862,13 @@ class C05(Prop):
         dump = real_out.get("dump") or {}
         if "ok" not in dump:
             return {"observed": {"dump": dump}, "required": "an accepted older document can be written back", "kind": "dump-refused"}
+        if real_out.get("version_after_load") != self.cur():
+            return {"observed": {"header.version after load": real_out.get("version_after_load")}, "required": {"header.version": self.cur()},
+                    "kind": "header-after-load"}
+        if (real_out.get("dump_again") or {}).get("ok") != dump["ok"]:
+            return {"observed": {"second dumps() of the same object": first_text_diff(dump["ok"], (real_out.get("dump_again") or {}).get("ok"))
+                                 if "ok" in (real_out.get("dump_again") or {}) else real_out.get("dump_again")},
+                    "required": "writing the loaded object twice gives the same bytes", "kind": "bytes-differ"}
         hdr = real_out.get("header")
         want = {"type": FMTS[fmt].header_type, "version": self.cur()}
         if hdr != want:
